@@ -4,7 +4,7 @@ import ast
 from ..core.model import AnchorError
 from ..core.cfg import walk_shallow, cfg_of
 from ..core.facts import U, atoms_of
-from ..engine import fn_name, kwarg, local_defs, returns_of, stmts_in, dict_items, vars_assigned_from, var_from_call
+from ..engine import argn, fn_name, kwarg, local_defs, returns_of, stmts_in, dict_items, vars_assigned_from, var_from_call
 from ..kinds import parity
 
 EXPLANATION = (
@@ -68,7 +68,7 @@ def s1(ctx, rep):
     # the rung passed is the loop variable of the scan in which the hit was found; the position comes from that hit
     loopv = [U(n.target) for n in walk_shallow(f.node) if isinstance(n, ast.For) and U(n.iter) == "self._rungs"]
     hit = var_from_call(f, "_find_promotable_trial")
-    a0, a1 = (U(call.args[0]), U(call.args[1])) if len(call.args) >= 2 else ("?", "?")
+    a0, a1 = (U(argn(call, 0)), U(argn(call, 1))) if len(call.args) >= 2 else ("?", "?")
     rd = [U(d) for d in local_defs(f, a0) if not isinstance(d, tuple)]
     pd = [d for d in local_defs(f, a1)]
     args_ok = bool(loopv) and loopv[0] in rd and any((isinstance(d, tuple) and U(d[1]) == hit) or (not isinstance(d, tuple) and hit and hit in U(d)) for d in pd)
@@ -144,7 +144,7 @@ def s2(ctx, rep):
                     var = name
             if isinstance(v, ast.BoolOp) and isinstance(v.op, ast.And):
                 ok = any(x is sup[0] or (var and U(x) == var) for x in v.values)
-            elif isinstance(v, ast.Call) and fn_name(v) == "task_continues" and v.args and (v.args[0] is sup[0] or (var and U(v.args[0]) == var)):
+            elif isinstance(v, ast.Call) and fn_name(v) == "task_continues" and v.args and (argn(v, 0) is sup[0] or (var and U(argn(v, 0)) == var)):
                 ok = True   # RUSHDecider.task_continues returns False whenever its first argument is False (C03-S8)
             else:
                 ok = False
@@ -299,7 +299,7 @@ def s6(ctx, rep):
     rep.put(ok, "S6", "agreement", "PromotionRungSystem.on_task_add records {milestone, resume_from} with resume_from < milestone", g, None, "")
     h = P.method("HyperbandScheduler", "_promote_trial")
     tidv = var_from_call(h, "on_task_schedule", 0)
-    ok = any(isinstance(x, ast.Call) and fn_name(x) == "on_task_add" and "terminator" in U(x.func.value) and U(x.args[0]) == tidv
+    ok = any(isinstance(x, ast.Call) and fn_name(x) == "on_task_add" and "terminator" in U(x.func.value) and U(argn(x, 0)) == tidv
              for x in walk_shallow(h.node))
     rep.put(ok, "S6", "must_reach", "HyperbandScheduler._promote_trial registers the resumed run with the rung system", h, None, "")
 
